@@ -463,6 +463,7 @@ Definition acc_incoming (cx : ctx) (a : Z) (p : packet) (w : net) : net * list k
   | PSyn, Some ci =>
       let t := get_tcp w a in
       acc_check_queue cx a (set_tcp w a (t <| a_conns := a_conns t ++ [ci] |>))
+  | PError, _ => acc_abort_handlers a true w   (* "something is not wired up correctly": aborts the pending accept *)
   | _, _ => (w, [])
   end.
 
@@ -934,6 +935,7 @@ Definition do_uop (v : variant) (now : Z) (o : uop) (w : net) : net * list kc :=
   | UResolve r n port h => rslv_resolve cx r n port h w
   | URslvCancel r => rslv_cancel r w
   | UPcapOn => (w <| w_pcap := Some [] |>, [])
+  | USetNextPort n => (w <| w_next_port := n |>, [])
   end.
 
 Fixpoint do_uops (v : variant) (now : Z) (os : list uop) (w : net) : net * list kc :=
